@@ -1,5 +1,8 @@
+pub mod astwalk;
 pub mod c01;
 pub mod c02;
+pub mod c04;
 pub mod c14;
+pub mod grammar;
 pub mod reflex;
 pub mod space;
